@@ -67,7 +67,7 @@ RtTypeVals(ty) == CASE ty = "Ints" -> IntsVals(0)
                     [] ty = "OMap" -> OMapVals(0)
                     [] ty = "Str1" -> RtProd(Catalogue[ty], 1, RtLen)
                     [] OTHER -> RtProd(Catalogue[ty], 1, RtLen2)
-RtTypes == {"Ints", "Floats", "Scal", "Str1", "Str2", "Ch", "Opt", "OptEnd", "En", "Nt", "SeqS", "SeqN", "Seq2", "TupSeq", "Map", "OMap"}
+RtTypes == {"Ints", "Floats", "Scal", "Str1", "Str2", "Ch", "Opt", "OptEnd", "En", "Nt", "SeqS", "SeqN", "Seq2", "TupSeq", "TsSeq", "Map", "OMap"}
 
 \* ------------------------------------------------------------------ decode
 WTok(ctx) == {[c |-> c, e |-> e, s |-> ""] : c \in Classes, e \in {"U", "L"}}
